@@ -16,17 +16,22 @@ From PcfgGen Require Import Small_probs_gen.
 Import ListNotations.
 
 Section ProbsEq.
-Context {O : numops} (ud : TextFile.str * num O).
+Context {O : numops} (nm : num O -> num O -> num O) (ud : TextFile.str * num O).
 
 Lemma py_sum_values_total (c : counter O) : py_sum (py_values c) = total c.
 Proof. reflexivity. Qed.
 
-Theorem small_calc_probs_eq (c : counter O) : py_calculate_probabilities ud c = calc_probs c.
+(* two spellings are recognised: the in-place loop `for i, v in enumerate(l): l[i] = (v[0], v[1]/t)` and the
+   comprehension `[(k, n/t) for k, n in c.most_common()]`; anything else has to be proved equal here first *)
+Theorem small_calc_probs_eq (c : counter O) : py_calculate_probabilities nm ud c = calc_probs c.
 Proof.
-  unfold py_calculate_probabilities, calc_probs, for_enum_cur, for_each. cbv zeta.
-  rewrite py_sum_values_total.
-  exact (for_enum_cur_map ud (fun kv => (fst kv, ndiv O (snd kv) (total c))) (most_common c) [] 0 _ _ _
-           (fun i l => eq_refl)).
+  unfold py_calculate_probabilities, calc_probs. cbv zeta.
+  rewrite ?py_sum_values_total.
+  first
+    [ unfold for_enum_cur, for_each;
+      exact (for_enum_cur_map ud (fun kv => (fst kv, ndiv O (snd kv) (total c))) (most_common c) [] 0 _ _ _
+               (fun i l => eq_refl))
+    | apply map_ext; intros [k n]; reflexivity ].
 Qed.
 
 End ProbsEq.
@@ -35,9 +40,9 @@ End ProbsEq.
 From Coq Require Import NArith ZArith QArith Floats Permutation Sorted.
 From Pcfg Require Import ProbAlg F64 TextFile CountersProofs CountersF64 IoFacts.
 
-Theorem small_each_once_sorted (ud : str * Q) (items : list str) : items <> [] ->
+Theorem small_each_once_sorted (nm : Q -> Q -> Q) (ud : str * Q) (items : list str) : items <> [] ->
   let c := @of_counts QNum (tally items) in
-  let file := @py_calculate_probabilities QNum ud c in
+  let file := @py_calculate_probabilities QNum nm ud c in
   file = map (fun kv => (fst kv, (snd kv / total c)%Q)) (most_common c) /\
   Permutation (most_common c) c /\
   NoDup (map fst file) /\
@@ -48,23 +53,23 @@ Theorem small_each_once_sorted (ud : str * Q) (items : list str) : items <> [] -
   (forall q : Q, filter (fun kv => Qeq_bool (snd kv) q) (most_common c) = filter (fun kv => Qeq_bool (snd kv) q) c) /\
   map fst c = nodup_first items.
 Proof.
-  intros H. cbv zeta. rewrite (@small_calc_probs_eq QNum ud). exact (each_once_sorted items H).
+  intros H. cbv zeta. rewrite (@small_calc_probs_eq QNum nm ud). exact (each_once_sorted items H).
 Qed.
 
-Theorem small_sum_one_Q (ud : str * Q) (c : counter QNum) :
-  ~ (total c == 0)%Q -> (qsum (map snd (@py_calculate_probabilities QNum ud c)) == 1)%Q.
-Proof. rewrite (@small_calc_probs_eq QNum ud). apply (proj1 sum_one_Q). Qed.
+Theorem small_sum_one_Q (nm : Q -> Q -> Q) (ud : str * Q) (c : counter QNum) :
+  ~ (total c == 0)%Q -> (qsum (map snd (@py_calculate_probabilities QNum nm ud c)) == 1)%Q.
+Proof. rewrite (@small_calc_probs_eq QNum nm ud). apply (proj1 sum_one_Q). Qed.
 
-Theorem small_F64_sorted_unit (ud : str * float) (c : counter FNum) :
+Theorem small_F64_sorted_unit (nm : float -> float -> float) (ud : str * float) (c : counter FNum) :
   Forall (fun kv => okbF (snd kv) = true /\ (snd kv <=? total c)%float = true) c ->
   okbF (total c) = true -> (0 <? total c)%float = true ->
-  Sorted prob_desc (@py_calculate_probabilities FNum ud c) /\
-  Forall (fun kv => unitbF (snd kv) = true) (@py_calculate_probabilities FNum ud c).
-Proof. rewrite (@small_calc_probs_eq FNum ud). apply calc_probs_F64_wf. Qed.
+  Sorted prob_desc (@py_calculate_probabilities FNum nm ud c) /\
+  Forall (fun kv => unitbF (snd kv) = true) (@py_calculate_probabilities FNum nm ud c).
+Proof. rewrite (@small_calc_probs_eq FNum nm ud). apply calc_probs_F64_wf. Qed.
 
 (* the generated function runs: counts 2 2 1 in binary64 *)
 Lemma small_F64_example :
   let c : counter FNum := [([97], 2%float); ([98], 2%float); ([99], 1%float)]%N in
-  @py_calculate_probabilities FNum ([], 0%float) c =
+  @py_calculate_probabilities FNum PrimFloat.mul ([], 0%float) c =
   [([97], 0x1.999999999999ap-2%float); ([98], 0x1.999999999999ap-2%float); ([99], 0x1.999999999999ap-3%float)]%N.
 Proof. vm_compute. reflexivity. Qed.
